@@ -1908,6 +1908,13 @@ def main():
             tr.done[(owner, name)] = out
         status["%s::%s" % (owner, name)] = {"translated": out["ok"], "reason": out.get("reason"), "fuel": out.get("fuel", False),
                                             "file": out.get("file"), "hash": out.get("hash"), "via_trait": out.get("via_trait")}
+    # every constant of the crate, also those no translated function mentions (they are compared with the values dumped from
+    # the compiled crate in Tie/Consts.lean: the two translators must agree)
+    for (owner, name) in sorted(crate.consts):
+        try:
+            tr.const_value(owner, name)
+        except (Unsupported, Exception):  # noqa: BLE001
+            pass
     text = emit(tr, crate)
     skipped = ["-- not translated: %s — %s" % (k, v["reason"]) for k, v in sorted(status.items()) if not v["translated"]]
     text = text.replace("end Src\n", "\n".join(skipped) + "\nend Src\n")
